@@ -302,9 +302,20 @@ WebSocketMsg WebSocket::receive()
 		if (masked)
 			_socket >> mask;
 
+		if (_socket.error()) // the stream ended inside the frame header: len and mask are not valid
+		{
+			_closed = true;
+			_socket.close();
+			return msg.fix();
+		}
+
 		buffer.resize(buffer.length() + len);
-		if (len > 0)
-			_socket.read(buffer.data() + buffer.length() - len, len);
+		if (len > 0 && _socket.read(buffer.data() + buffer.length() - len, len) != len) // the stream ended inside the payload
+		{
+			_closed = true;
+			_socket.close();
+			return msg.fix();
+		}
 
 		DEBUG_LOG("frame: op %i fin %i len %i\n", opcode, fin ? 1 : 0, (int)len);
 
